@@ -168,7 +168,17 @@ def ob_md_conditional(shape, cvars, lo):
             cd = md.conditionalize(cvars, list(cv))
             eshape = tuple(shape[k] for k in rest)
             out.append(Holds(f"conditional{cv} shape", tuple(cd.shape) == eshape))
-            pm = mg[cv] if len(cv) > 1 else mg[cv[0]]
+            # marginal probability of the conditioning event, from the definition (sum of the joint over the free variables)
+            pm = 0
+            for ridx in np.ndindex(eshape):
+                full = [0] * len(shape)
+                for j, k in enumerate(cvars):
+                    full[k] = cv[j]
+                for j, k in enumerate(rest):
+                    full[k] = ridx[j]
+                pm = pm + T[tuple(full)]
+            if sorted(cvars) == cvars:
+                out.append(Eq(f"marginalize(cvars){cv} == sum of the joint over the free variables", mg[cv] if len(cv) > 1 else mg[cv[0]], pm, 1e-9))
             s = 0
             for ridx in np.ndindex(eshape):
                 full = [0] * len(shape)
@@ -256,8 +266,9 @@ def obligations(tier):
     for s in tiers(tier, [(2, 2)], [(2, 2), (2, 3)]):
         for rem in tiers(tier, ([0], [1, 0]), ([0], [1], [1, 0])):
             out += specs("C16.md.marginal", [{"shape": list(s), "remain": rem, "lo": 0.0}], ob_md_marginal, 4)
-    for s, cv in tiers(tier, [((2, 2), [0]), ((2, 3), [1]), ((3, 2), [0])],
-                       [((2, 2), [0]), ((2, 3), [1]), ((3, 2), [0]), ((2, 2, 2), [0, 2]), ((2, 2, 2), [1]), ((2, 3, 2), [1]), ((2, 3, 2), [0, 1])]):
+    for s, cv in tiers(tier, [((2, 2), [0]), ((2, 3), [1]), ((3, 2), [0]), ((2, 2, 2), [2, 0]), ((2, 2, 2), [0, 1])],
+                       [((2, 2), [0]), ((2, 3), [1]), ((3, 2), [0]), ((2, 2, 2), [0, 2]), ((2, 2, 2), [2, 0]), ((2, 2, 2), [1]), ((2, 3, 2), [1]),
+                        ((2, 3, 2), [0, 1]), ((2, 3, 2), [1, 0]), ((2, 3, 2), [2, 1]), ((2, 2, 2), [2, 0, 1])]):
         out += specs("C16.md.conditional", [{"shape": list(s), "cvars": cv, "lo": 1e-3}], ob_md_conditional, 5)
     out += specs("C16.md.getitem", [{"shape": list(s)} for s in tiers(tier, [(2, 3), (2, 2, 2)], [(2, 3), (3, 4), (2, 2, 2), (2, 3, 2), (2, 2, 2, 2)])], ob_md_getitem, 2)
     out += specs("C16.validate", [{"n": n, "validate_sum": v} for n in tiers(tier, [2, 3], [2, 3, 4, 5]) for v in (True, False)], ob_validate, 2)
